@@ -267,9 +267,27 @@ fn serve(stream: TcpStream, state: Arc<Mutex<HttpState>>) -> std::io::Result<()>
                 respond(&mut stream, "400 Bad Request", &[], b"")?;
             }
         } else if tail == "snapshot" {
+            let tamper = st.tamper.clone();
             let chain = st.chains.entry(client).or_default();
             match chain.snapshot.clone() {
-                Some((vid, body)) => {
+                Some((mut vid, mut body)) => {
+                    match tamper {
+                        Tamper::None => {}
+                        Tamper::SwapBody => {
+                            if let Some(other) = chain.versions.first() {
+                                body = other.2.clone();
+                            }
+                        }
+                        Tamper::FlipBit(i) => {
+                            if !body.is_empty() {
+                                let n = body.len();
+                                body[i % n] ^= 1 << (i % 8);
+                            }
+                        }
+                        Tamper::WrongParentHeader => {
+                            vid = Uuid::from_u128(vid.as_u128() ^ 1);
+                        }
+                    }
                     drop(st);
                     respond(
                         &mut stream,
